@@ -2,6 +2,7 @@
 From CubedV Require Import Model.Util Model.Keys Model.Geometry Model.OpsKF Model.ShapeSem Proofs.GeometryProofs Proofs.OpsKFProofs Proofs.ShapeSemProofs.
 From Coq Require Import Permutation.
 From CubedV Require Import Model.Regular Proofs.RegularProofs.
+From CubedV Require Import Model.GroupBy Proofs.GroupByProofs.
 
 Theorem C12_upcast_never_narrows : forall d, itemsize d <= itemsize (upcast d).
 Proof. exact upcast_never_narrows. Qed.
@@ -79,4 +80,43 @@ Example C12_reg_ex_stored : stored_chunks 7 3 = [3;3;1].
 Proof. vm_compute; reflexivity. Qed.
 
 Example C12_reg_ex_zero_length : to_chunksize [[0]] = Some [1].
+Proof. vm_compute; reflexivity. Qed.
+
+(* GroupBy: the chunking of the grouped axis of groupby_blockwise (_get_chunks_for_groups) - every task reads exactly the
+   labels of the groups of its output chunk and is told that chunk's number of groups *)
+
+Theorem C12_gb_newchunks_sum : forall nc labels G, 0 < nc -> 0 < G -> labels_ok labels G ->
+  sumn (newchunks nc labels G) = length labels.
+Proof. exact (newchunks_sum). Qed.
+Print Assumptions C12_gb_newchunks_sum.
+
+Theorem C12_gb_newchunks_length : forall nc labels G, 0 < nc -> 0 < G ->
+  length (newchunks nc labels G) = num_out_chunks (groups_per_chunk nc G) G.
+Proof. exact (newchunks_length). Qed.
+Print Assumptions C12_gb_newchunks_length.
+
+Theorem C12_gb_read_labels_in_range : forall nc labels G j l, 0 < nc -> 0 < G -> labels_ok labels G ->
+  j < num_out_chunks (groups_per_chunk nc G) G -> In l (read_labels nc labels G j) ->
+  start_group nc G j <= l < start_group nc G j + groups_in_chunk nc G j.
+Proof. exact (read_labels_in_range). Qed.
+Print Assumptions C12_gb_read_labels_in_range.
+
+Theorem C12_gb_read_labels_partition : forall nc labels G, 0 < nc -> 0 < G -> labels_ok labels G ->
+  concat (map (read_labels nc labels G) (seq 0 (num_out_chunks (groups_per_chunk nc G) G))) = labels.
+Proof. exact (read_labels_partition). Qed.
+Print Assumptions C12_gb_read_labels_partition.
+
+Theorem C12_gb_groups_in_chunk_spec : forall nc G, 0 < nc -> 0 < G ->
+  sumn (map (groups_in_chunk nc G) (seq 0 (num_out_chunks (groups_per_chunk nc G) G))) = G /\
+  forall j, j < num_out_chunks (groups_per_chunk nc G) G -> 0 < groups_in_chunk nc G j <= groups_per_chunk nc G.
+Proof. exact (groups_in_chunk_spec). Qed.
+Print Assumptions C12_gb_groups_in_chunk_spec.
+
+Theorem C12_gb_short_last_group_chunk : exists nc G j, 0 < nc /\ 0 < G /\ j < num_out_chunks (groups_per_chunk nc G) G /\
+  groups_in_chunk nc G j < groups_per_chunk nc G.
+Proof. exact (short_last_group_chunk). Qed.
+Print Assumptions C12_gb_short_last_group_chunk.
+
+Example C12_gb_ex : (newchunks 2 [0;0;0;1;1;2;2;3;4;4] 5, map (groups_in_chunk 2 5) [0;1;2], map (read_labels 2 [0;0;0;1;1;2;2;3;4;4] 5) [0;1;2])
+  = ([5; 3; 2], [2; 2; 1], [[0; 0; 0; 1; 1]; [2; 2; 3]; [4; 4]]).
 Proof. vm_compute; reflexivity. Qed.
